@@ -254,7 +254,8 @@ def cas_oracle(ctx, rep, st, D, case):
         rep.violate("algebraic simplification did not terminate within 5 s", "C03:cas-timeout", case)
         return False
     if status != "ok":
-        rep.violate(f"algebraic simplification raised ({status})", "C03:cas-raise", case)
+        key = "C03:F3b-int64-wrap" if status in ("raise:MemoryError", "raise:OverflowError") else "C03:cas-raise"
+        rep.violate(f"algebraic simplification raised ({status})", key, case)
         return False
     changed = out != [list(r) for r in st]
     if not wf_genome(out, D):
@@ -273,7 +274,8 @@ def cas_oracle(ctx, rep, st, D, case):
         if s2 == "timeout":
             rep.violate("algebraic simplification did not terminate within 5 s", "C03:cas-timeout", {"stack": cf, "D": D2})
         else:
-            rep.violate(f"algebraic simplification raised ({s2})", "C03:cas-raise", {"stack": cf, "D": D2})
+            key = "C03:F3b-int64-wrap" if s2 in ("raise:MemoryError", "raise:OverflowError") else "C03:cas-raise"
+            rep.violate(f"algebraic simplification raised ({s2})", key, {"stack": cf, "D": D2})
         return changed
     if any(r[0] == G.CONSTANT for r in o2) or not wf_genome(o2, D2):
         rep.violate("constant-free stack simplified to a stack with constants / ill-formed", "C03:cas-wf", {"stack": cf, "D": D2, "simplified": o2})
